@@ -208,14 +208,19 @@ func (e *VerifEnv) SlotOwner(slot int) string {
 // Do runs handleRequest on one request and waits for its reply.
 func (e *VerifEnv) Do(v *RespValue, timeout time.Duration) (reply *RespValue, timedOut bool) {
 	req := newRawRequest(v)
+	panicked := false
 	func() {
 		defer func() {
 			if r := recover(); r != nil {
 				e.notePanic("handleRequest", r)
+				panicked = true
 			}
 		}()
 		e.p.handleRequest(req)
 	}()
+	if panicked {
+		return nil, false
+	}
 	select {
 	case <-req.done:
 		return verifCopy(req.Response()), false
